@@ -313,7 +313,7 @@ fn gen_atom(ch: &mut Chooser) -> Tree {
             Tree::Atom(if b { "#t" } else { "#f" }.to_string(), SVal::Bool(b), "boolean")
         }
         4 => {
-            let c = *ch.pick(&['a', 'Z', '0', '(', ')', ';', '"', '#', '|', '\'', 'x', 't', 'n', '\\', '.']);
+            let c = *ch.pick(&['a', 'Z', '0', '(', ')', ';', '"', '#', '|', '\'', 'x', 't', 'n', '\\', '.', ' ', ' ', '\t']);
             Tree::Atom(format!("#\\{}", c), SVal::Char(c), "character")
         }
         5 | 6 => {
@@ -360,6 +360,12 @@ fn gen_atom(ch: &mut Chooser) -> Tree {
                         text.push(c);
                         val.push(c)
                     }
+                    9 => {
+                        // the literal continues on the next line, possibly with blanks before the line break
+                        let c = *ch.pick(&["\n", " \n", "\t\n", "  \n ", "\n\n"]);
+                        text.push_str(c);
+                        val.push_str(c)
+                    }
                     _ => {
                         let c = *ch.pick(&['a', 'b', 'x', '1', 'Z', 'e']);
                         text.push(c);
@@ -390,6 +396,10 @@ fn gen_atom(ch: &mut Chooser) -> Tree {
             let text = format!("{}{}/{}", if plus { "+" } else { "" }, a, b);
             Tree::Atom(text, SVal::Num(SNum::Rat(a, b)), "ratio")
         }
+        10 if ch.chance(1, 3) => {
+            let (text, bits) = near_midpoint_literal(ch);
+            Tree::Atom(text, SVal::Num(SNum::Real(bits)), "real")
+        }
         _ => {
             // decimals: d+.d*[e±d+] | d+e±d+ | ±.d+
             let sign = *ch.pick(&["", "", "-", "+"]);
@@ -407,6 +417,37 @@ fn gen_atom(ch: &mut Chooser) -> Tree {
             Tree::Atom(text, SVal::Num(SNum::Real(v.to_bits())), "real")
         }
     }
+}
+
+/// a long decimal literal just above, just below or exactly on the midpoint of two adjacent binary32 values; the
+/// binary32 it denotes is known by construction (no decimal-to-binary conversion is used as the oracle)
+pub fn near_midpoint_literal(ch: &mut Chooser) -> (String, u32) {
+    // magnitudes between 2^-12 and 2^24: the exact decimal expansion of the midpoint fits in 64 fractional digits
+    let exp = 115 + ch.below(36) as u32;
+    let mant = match ch.below(4) {
+        0 => 0,
+        1 => 0x7f_ffff - ch.below(3) as u32,
+        _ => ch.range(0, 0x7f_ffff) as u32,
+    };
+    let lo_bits = (exp << 23) | mant;
+    let (lo, hi) = (f32::from_bits(lo_bits), f32::from_bits(lo_bits + 1));
+    let mid = (lo as f64 + hi as f64) / 2.0; // exact: 25 significant bits
+    let digits = format!("{:.70}", mid);
+    let digits = digits.trim_end_matches('0').to_string();
+    debug_assert!(digits.contains('.') && !digits.ends_with('.'));
+    let (body, value) = match ch.below(3) {
+        0 => (format!("{}1", digits), hi),
+        1 => {
+            // last digit d (non-zero) becomes d-1 followed by 9...: slightly less than the midpoint
+            let (head, last) = digits.split_at(digits.len() - 1);
+            let d = last.chars().next().unwrap().to_digit(10).unwrap();
+            (format!("{}{}9999", head, d - 1), lo)
+        }
+        _ => (digits.clone(), if lo_bits & 1 == 0 { lo } else { hi }),
+    };
+    let neg = ch.chance(1, 3);
+    let text = if neg { format!("-{}", body) } else { body };
+    (text, if neg { (-value).to_bits() } else { value.to_bits() })
 }
 
 fn gen_tree(ch: &mut Chooser, depth: u32) -> Tree {
@@ -524,6 +565,22 @@ fn eval_quote(text: &str) -> Outcome {
     })
 }
 
+fn eval_quote_file(text: &str) -> Outcome {
+    let dir = std::env::temp_dir().join(format!("rv-c06-{}-{:?}", std::process::id(), std::thread::current().id()));
+    let _ = std::fs::create_dir_all(&dir);
+    let file = dir.join("datum.scm");
+    std::fs::write(&file, text).unwrap();
+    let o = EVAL.with(|c| {
+        let mut c = c.borrow_mut();
+        if c.is_none() {
+            *c = Some(Session::stdlib().expect("stdlib"));
+        }
+        c.as_mut().unwrap().eval_file(&file)
+    });
+    let _ = std::fs::remove_dir_all(&dir);
+    o
+}
+
 fn tree_case(ch: &mut Chooser) -> Report {
     let depth = ch.below(6) as u32;
     let tree = gen_tree(ch, depth);
@@ -561,6 +618,16 @@ fn tree_case(ch: &mut Chooser) -> Report {
         }
     };
     judge(&o1, &t1, &mut rep);
+    if rep.fails.is_empty() && ch.chance(1, 5) {
+        // the same text read from a program file (src/io.rs re-assembles it line by line)
+        rep.label("read-from-file");
+        let o3 = eval_quote_file(&format!("'{}", t1));
+        let before = rep.fails.len();
+        judge(&o3, &t1, &mut rep);
+        for f in rep.fails.iter_mut().skip(before) {
+            f.sig = format!("from-file:{}", f.sig);
+        }
+    }
     if rep.fails.is_empty() {
         judge(&o2, &t2, &mut rep);
         if rep.fails.is_empty() && o1 != o2 {
@@ -579,13 +646,15 @@ pub fn run(ctx: &Ctx) {
     ctx.set_rule(
         "(a) random datum trees (depth <= 5, width <= 6) over every supported token class, rendered twice with random \
          inter-token layout (nothing where the grammar permits adjacency, blanks, tabs, CR, LF, CRLF, comments), \
-         evaluated as 'TEXT and compared with the tree (and with each other); non-trivial = >= 3 token classes and >= 1 \
+         evaluated as 'TEXT and compared with the tree (and with each other), a fifth of them also read from a program \
+         file; character literals include #\\space/#\\tab written with the raw character, strings continue over line breaks, \
+         decimals include long literals just above / below / on the midpoint of two adjacent binary32 values; non-trivial = >= 3 token classes and >= 1 \
          adjacency without whitespace. (b) every string up to length 5 (thorough 6) over a 17-character alphabet: \
          the real Lexer against an independent reference tokenizer that classifies the string Valid(tokens) / Invalid / \
          Unsupported / Undefined; non-trivial = >= 2 tokens, or an Invalid/Unsupported string the lexer accepted.",
     );
     ctx.assume("the reference tokenizer (reflex.rs, written from R7RS 7.1.1 restricted to the supported grammar) is trusted; it has its own unit tests");
-    let cases = ctx.tier.pick(6_000, 80_000);
+    let cases = ctx.tier.pick(15_000, 80_000);
     ctx.random("trees", cases, 400, tree_case);
     // regression inputs and witnesses
     let w: Vec<String> = LEX_WITNESSES.iter().map(|s| s.to_string()).collect();
